@@ -34,6 +34,7 @@ func main() {
 	selfOut := flag.String("selftest-out", "", "self-test: append the result of this variant (JSON line) to this file")
 	selfIn := flag.String("selftest-in", "", "thorough: merge self-test results from this file into the evidence")
 	genGuards := flag.Bool("gen-guards", false, "maintenance: write the guarded-by reference table (guards.json) from the current tree")
+	genFields := flag.Bool("gen-fields", false, "maintenance: write the constructor/copy/reset field table (fields.json) from the current tree")
 	genErrors := flag.Bool("gen-errors", false, "maintenance: write the error-report reference table (errors.json) from the current tree")
 	genNames := flag.Bool("gen-names", false, "maintenance: write the frozen parameter/local name table (names.json) from the current tree")
 	flag.Parse()
@@ -162,6 +163,15 @@ func main() {
 			os.Exit(2)
 		}
 		fmt.Printf("guards.json written (%d guarded fields)\n", n)
+		return
+	}
+	if *genFields {
+		n, err := props.GenFieldTable(p, *verif)
+		if err != nil {
+			fmt.Fprintln(os.Stderr, "lkcheck:", err)
+			os.Exit(2)
+		}
+		fmt.Printf("fields.json written (%d constructors/copies/resets)\n", n)
 		return
 	}
 	if *genErrors {
